@@ -168,7 +168,7 @@ class Ctx(object):
 
     def violation(self, what, witness):
         with self._lock:
-            mech = what[:60]
+            mech = ''.join(c for c in what[:70] if not c.isdigit())
             self._per_mech[mech] = self._per_mech.get(mech, 0) + 1
             if len(self.violations) < self.MAX_VIOLATIONS and self._per_mech[mech] <= 2:
                 self.violations.append({'what': what, 'witness': jsonable(witness)})
